@@ -11,7 +11,8 @@
 From Coq Require Import ZArith List Reals.
 From Flocq Require Import Core BinarySingleNaN.
 From Perf Require Import Base.Bytes Base.B64 Base.FmtFixed Model.Scale Model.ScaleSpec
-     Proofs.FmtFixed Proofs.B64Flocq Proofs.Scale Proofs.ScaleMore Proofs.ScaleError Proofs.ScaleClass.
+     Proofs.FmtFixed Proofs.B64Flocq Proofs.Scale Proofs.ScaleMore Proofs.ScaleError Proofs.ScaleClass
+     Model.RowScale Proofs.RowScale.
 Import ListNotations.
 Local Open Scope Z_scope.
 
@@ -186,6 +187,43 @@ Theorem C10_noop_shortest_roundtrip : forall (shortest : b64 -> bytes) (read_bac
   read_back (format shortest noop_scaler v) = Some v.
 Proof. exact noop_shortest_roundtrip. Qed.
 Print Assumptions C10_noop_shortest_roundtrip.
+
+(** ** the shared scale as cmd/benchstat's table renderer applies it
+    ([row_scaler], Model/RowScale.v = benchtab.Table.RowScaler): the scale of a
+    row is that of the least non-zero |centre| among the cells the row has; it
+    does not change when any cells change sign (a row whose least magnitude is
+    negative, an all-negative row and their mirror images share one scale);
+    missing cells contribute nothing *)
+Theorem C10_row_scaler_is_min : forall cells cls,
+  Forall (fun v => b64_is_nan v = false) (row_values cells) ->
+  row_scaler cells cls = common_scale (@cons spec_float (min_nonzero (row_values cells)) nil) cls.
+Proof. exact row_scaler_is_min. Qed.
+Print Assumptions C10_row_scaler_is_min.
+
+Theorem C10_row_scaler_sign_blind : forall flip cells cls,
+  row_scaler (flip_signs flip cells) cls = row_scaler cells cls.
+Proof. exact row_scaler_sign_blind. Qed.
+Print Assumptions C10_row_scaler_sign_blind.
+
+Theorem C10_row_scaler_missing : forall cells cls, row_scaler (None :: cells) cls = row_scaler cells cls.
+Proof. exact row_scaler_missing. Qed.
+Print Assumptions C10_row_scaler_missing.
+
+(** rows of the kinds the harness generates: old=-3.25 new=5120 keeps three
+    decimals and no prefix; -2048 B next to 8 MiB is scaled in Ki; -250e-9 sec
+    in every cell prints as -250.0n; a missing cell and a zero do not matter *)
+Example C10_row_examples :
+  row_texts (fun _ => []) [Some (b64_of_dec true 325 (-2)); Some (b64_of_Z 5120)] Decimal
+    = Some [Some (bs "-3.250"); Some (bs "5120.000")] /\
+  row_texts (fun _ => []) [Some (b64_of_Z (-2048)); None; Some (b64_of_Z 8388608)] Binary
+    = Some [Some (bs "-2.000Ki"); None; Some (bs "8192.000Ki")] /\
+  row_texts (fun _ => []) [Some (b64_of_dec true 250 (-9)); Some (b64_of_dec true 250 (-9))] Decimal
+    = Some [Some (bs "-250.0n"); Some (bs "-250.0n")] /\
+  row_texts (fun _ => []) [Some b64_zero; Some (b64_of_dec true 15 (-4)); Some (b64_of_Z 3)] Decimal
+    = Some [Some (bs "0.000m"); Some (bs "-1.500m"); Some (bs "3000.000m")] /\
+  flip_signs [true; false] [Some (b64_of_dec false 325 (-2)); Some (b64_of_Z 5120)]
+    = [Some (b64_of_dec true 325 (-2)); Some (b64_of_Z 5120)].
+Proof. vm_compute. repeat split; reflexivity. Qed.
 
 (** ** non-vacuity: concrete instances of every hypothesis used above *)
 Example C10_examples :
